@@ -1,22 +1,28 @@
 ------------------------------ MODULE MC_Route ------------------------------
-(* Adversarial routing (C02 C03 C07 C08): two users, a third sharing the first one's      *)
-(* password, a re-registration of the first, absent record; client sessions incl. a wrong *)
-(* password one; every (request, record, credential id) server session; every response    *)
-(* to every client; every finalization (and a forged one) to every server session.        *)
+(* Adversarial routing (C02 C03 C07 C08): two users, a third sharing the first one's password, a re-registration of the first, absent record; client sessions incl. a wrong-password one; every (request, record, credential id) server session; every response to every client; every finalization (and a forged one) to every server session. *)
 EXTENDS MCBase
 
 A(n) == Atom(n)
-R_SetupPlan == << [op |-> "new", tape |-> 1] >>
-Plan(pw, cid) == [pw1 |-> A(pw), pw2 |-> A(pw), cid |-> A(cid), s |-> 1,
-                  idu |-> NoneV, ids |-> NoneV, ksf |-> 0]
-\* pool atoms: 1,2 passwords; 11,12,13 credential ids
-R_RegPlan == << Plan(1, 11), Plan(2, 12), Plan(1, 13), Plan(1, 11) >>
-R_CliPw   == [c \in CliIds |-> IF c = 3 THEN <<A(2), A(2)>>
+Plan(pw, cid, s, idu, ids, ksf) == [pw1 |-> A(pw), pw2 |-> A(pw), cid |-> A(cid), s |-> s,
+                                    idu |-> idu, ids |-> ids, ksf |-> ksf]
+One == {NoneV}
+Route_SetupPlan == << [op |-> "new", tape |-> 1] >>
+Route_RegPlan == << Plan(1, 11, 1, NoneV, NoneV, 0), Plan(2, 12, 1, NoneV, NoneV, 0),
+                Plan(1, 13, 1, NoneV, NoneV, 0), Plan(1, 11, 1, NoneV, NoneV, 0) >>
+Route_RegIdus == One
+Route_RegIdss == One
+Route_RegKsfs == {0}
+Route_CliPw   == [c \in CliIds |-> IF c = 3 THEN <<A(2), A(2)>>
                                ELSE IF c = 4 THEN <<A(3), A(3)>> ELSE <<A(1), A(1)>>]
-R_SrvRecs == 0..4
-R_SrvCids == {A(11), A(12)}
-R_One     == {NoneV}
-R_Ksfs    == {0}
-R_Tamper  == {}
-EmitNever == TRUE
+Route_SrvSetups == {1}
+Route_SrvRecs == 0..4
+Route_SrvCids == {A(11), A(12)}
+Route_SrvCtxs == One
+Route_SrvIdus == One
+Route_SrvIdss == One
+Route_CliCtxs == One
+Route_CliIdus == One
+Route_CliIdss == One
+Route_CliKsfs == {0}
+Route_MutPlan == << <<"fin", "valid">> >>
 =============================================================================
